@@ -191,15 +191,17 @@ def main(tier: str) -> int:
             for seq in (True, False):
                 for tol in (0.5, 0.1, 1e-2, 1e-3):
                     cases.append({"cls": "general", "shape": shape, "order": order, "seq": seq, "tol": tol,
-                                  "ranks": [0] * len(shape), "verbosity": [0, 1, 10][i % 3], "seed": sd + i % 5})
+                                  "ranks": [0] * len(shape), "verbosity": [0, 1, 10][(i * 7 + i // 3) % 3], "seed": sd + (i * 5 + i // 4) % 5})
                     i += 1
                 cases.append({"cls": "general", "shape": shape, "order": order, "seq": seq, "tol": 0.1,
                               "ranks": [1 + (j + i) % s for j, s in enumerate(shape)], "verbosity": 0, "seed": sd + i % 5})
                 i += 1
             for init in ("random", "nvecs", "given"):
+                import random
+                rr = random.Random(104729 * sd + i)      # options drawn independently of each other
                 cases.append({"cls": "tucker", "shape": shape, "order": order, "ranks": [min(2, s) for s in shape],
-                              "maxiters": 1 + i % 3, "stoptol": [1e-4, 0.0][i % 2], "printitn": [0, 1][i % 2],
-                              "init": init, "seed": sd + i % 5})
+                              "maxiters": rr.choice([1, 2, 3]), "stoptol": rr.choice([1e-4, 0.0]), "printitn": rr.choice([0, 1, 2]),
+                              "init": init, "seed": sd + rr.randrange(5)})
                 i += 1
                 # data exactly representable at the requested ranks (fit = 1 up to rounding), full ranks, and
                 # unbalanced rank vectors (one rank larger than the product of the others: the mode-n unfolding of the
